@@ -87,6 +87,7 @@ def run(chk, repo, tier):
     C04b.run_p8(chk, P8, repo)
     P9 = chk.rule('P9', 'record editing never drops a line break when it drops items', floor=2)
     C04b.run_p9(chk, P9, repo)
+    C04b.run_p10_p11(chk, repo)
 
     tm = repo.module(f'{NM}.records.theta_record')
     om = repo.module(f'{NM}.records.omega_record')
